@@ -4,7 +4,7 @@
     of atomic events step by step (each one enabled), end with the flusher Done, and show the same
     operations reaching the wrapped cassette in the same order with the same outcomes, the same
     stored recordings, the same live recording objects and the same requests refused at the caller. *)
-From Playback Require Export Base.Str Async.AsyncModel.
+From Playback Require Export Base.Str Values.PyVal Async.AsyncModel.
 Open Scope list_scope.
 
 Record run := Run {
@@ -19,8 +19,12 @@ Inductive case :=
 | Gate (ok : bool)       (* structural premise of the atomic-step reduction (ast lock gate) *)
 | Runs (nrec : nat) (work : list (list op)) (strict : bool) (runs : list run).
 
+(** type-exact equality of recorded values: same constructors all the way down ([VBool true] is not [VInt 1],
+    [VFloat "0.0"] is not [VFloat "-0.0"]); only the item order of nested dicts is ignored ([canon]) *)
+Definition val_eqb (a b : val) : bool := pyval_eqb (canon a) (canon b).
+
 Definition dict_eqb : dict -> dict -> bool :=
-  list_eqb (fun a b => N.eqb (fst a) (fst b) && N.eqb (snd a) (snd b)).
+  list_eqb (fun a b => N.eqb (fst a) (fst b) && val_eqb (snd a) (snd b)).
 
 Definition applied_obs (s : state) : list (nat * nat * bool) :=
   map (fun e => (fst (fst e), o_idx (snd (fst e)), snd e)) (applied s).
